@@ -137,8 +137,210 @@ class UserPfileKnife(Task):
         ctx.oblige("post.recipe-gets-field-indexes", all(c[0] for c in inp["calls"]), "P")
 
 
+class Table:
+    """module-level table indexed by the box shape (SARRAYS / PRESSURES): entry = an object that knows its shape"""
+
+    def __init__(self, cls):
+        self.cls = cls
+
+    def getitem(self, ex, key):
+        return Record(self.cls, shape=[to_z3(k) for k in ex.as_iterable(key)])
+
+
+class CanteraKnife(Task):
+    """The four workers that go through a Cantera SolutionArray (single field, by species, by reaction, user recipe with a
+    solution array).  Contract of the Cantera side (ASSUMED, opaque): after `s.TPY = T, P, Y` an attribute of s is a
+    deterministic array of the box (uninterpreted THERMO(box, i, j, k, column)); obligations AT that read: s and P are the
+    table entries of the box's own shape, T is the box's temperature with |T| <= 1e-8 replaced by 1, Y the box's mass
+    fractions with Y(O2) = 1 where they sum to ~0 -- copies, the box array itself untouched.  Output as for the user
+    recipe worker: hdrline(range, nkept + nnew) then the F-order bytes of [kept (bit-identical), new columns]."""
+    prop = "C11"
+    reach = "U"
+
+    def __init__(self, kind):
+        self.kind = kind
+        fn = {"single": "chefs_knife_single_field", "byspecies": "chefs_knife_byspecies_field",
+              "byreaction": "chefs_knife_byreaction_field", "user1": "chefs_knife_user_sarray", "usern": "chefs_knife_user_sarray"}[kind]
+        self.qual = CH + fn
+        self.name = fn + {"user1": "[1 component]", "usern": "[n components]"}.get(kind, "")
+
+    def setup(self, ex):
+        ctx = ex.ctx
+        kind = self.kind
+        ctx.ghost["ndims"] = 3
+        disk = DiskFile(ctx, "Fr", 3, canonical=True)
+        pw, Fw = sym_path(ctx, "Fw", exists=False)
+        ctx.assume(Fw != disk.F)
+        nk, K, keep = selection(ctx, "keep", disk.nc)
+        # where the thermodynamic state sits in a box (established by Chef.__init__)
+        s0, s1, it, io2 = z3.Int("sp_start"), z3.Int("sp_end"), z3.Int("id_temp"), z3.Int("idx_O2")
+        ctx.assume(z3.And(s0 >= 0, s0 < s1, s1 <= disk.nc, it >= 0, it < disk.nc, io2 >= 0, io2 < s1 - s0))
+        NCOL = z3.Int("ncols")        # columns of the Cantera attribute (species / reactions of the mechanism)
+        ctx.assume(NCOL >= 1)
+        nsel, SEL, sel = selection(ctx, "cols", NCOL)
+        if kind in ("byspecies", "byreaction"):
+            ctx.assume(nsel >= 1)
+        ncomp = {"single": 1, "byspecies": nsel, "byreaction": nsel, "user1": 1, "usern": z3.Int("ncomp")}[kind]
+        if kind == "usern":
+            ctx.assume(ncomp >= 1)
+        RF = z3.Function("THERMO", I, I, I, I, I, R_)     # (box data position, i, j, k, column)
+        OUT = z3.Function("OUTPOS", I, I)
+        ctx.assume(OUT(0) == 0)
+        fields = {"a": 0}
+        calls = []
+        cur = {}
+        ex.globals_model[(CH[:-1], "SARRAYS")] = Table("SolutionArray")
+        ex.globals_model[(CH[:-1], "PRESSURES")] = Table("Pressure")
+
+        def col(c):
+            c = to_z3(c)
+            return {"single": z3.IntVal(0), "byspecies": SEL(c), "byreaction": SEL(c)}.get(kind, c)
+
+        def close0(x):
+            x = to_real(x)
+            return z3.If(x >= 0, x, -x) <= to_real(1e-8)      # the double nearest to 1e-8, as numpy compares
+
+        def state_checks(sarray):
+            """the obligations at the point where Cantera is asked for the new data"""
+            k = cur["k"]
+            fb = disk.fab(k)
+            tpy = sarray.attrs.get("TPY")
+            ok = isinstance(tpy, tuple) and len(tpy) == 3
+            ctx.oblige("call.state-set-before-read", ok, "P")
+            if not ok:
+                return
+            T, P, Y = tpy
+            shp = list(fb.shape)
+            ctx.oblige("call.solution-array-of-the-box-shape", veq(ctx, list(sarray.attrs.get("shape", [])), shp), "P")
+            ctx.oblige("call.pressure-of-the-box-shape",
+                       veq(ctx, list(P.attrs.get("shape", [])), shp) if isinstance(P, Record) and P.cls == "Pressure" else False, "P")
+            expT = NDArray(shp, lambda ix: z3.If(close0(fb.value(ix, it)), z3.RealVal(1), to_real(fb.value(ix, it))))
+            ctx.oblige("call.T-is-the-box-temperature-cleaned", veq(ctx, T, expT) if isinstance(T, NDArray) else False, "P")
+            nsp = s1 - s0
+            sums = {}
+
+            def ysum(ix3):
+                key = tuple(str(i) for i in ix3)
+                if key not in sums:
+                    sums[key] = reduce_const(ex, "sum", [nsp], lambda r, ix3=ix3: fb.value(ix3, s0 + to_z3(r[0])))
+                return sums[key]
+            expY = NDArray(shp + [nsp], lambda ix: z3.If(z3.And(to_z3(ix[3]) == io2, close0(ysum(tuple(ix[:3])))), z3.RealVal(1),
+                                                          to_real(fb.value(ix[:3], s0 + to_z3(ix[3])))))
+            ctx.oblige("call.Y-are-the-box-mass-fractions-cleaned", veq(ctx, Y, expY) if isinstance(Y, NDArray) else False, "P")
+
+        def thermo_attr(ex_, self_, args, kw):
+            name = args[0]
+            calls.append(("attr", name))
+            state_checks(self_)
+            fb = disk.fab(cur["k"])
+            shp = list(fb.shape)
+            if kind == "single":
+                return NDArray(shp, lambda ix: RF(to_z3(fb.data0), *[to_z3(i) for i in ix], z3.IntVal(0)))
+            return NDArray(shp + [NCOL], lambda ix: RF(to_z3(fb.data0), *[to_z3(i) for i in ix]))
+        from pyvc.exec import METHODS
+        METHODS[("Record:SolutionArray", "__getattribute__")] = thermo_attr
+
+        def recipe(ex_, args, kw):
+            fi, arr = args[0], args[1]
+            calls.append(("user", fi is fields, len(args)))
+            if len(args) != 3 or not isinstance(args[2], Record):
+                raise SymRaise("TypeError", "recipe() takes 3 positional arguments")
+            state_checks(args[2])
+            fb = disk.fab(cur["k"])
+            ctx.oblige("call.recipe-gets-the-box-array", veq(ctx, arr, NDArray(list(fb.shape) + [disk.nc], lambda ix: fb.value(ix[:3], ix[3])))
+                       if isinstance(arr, NDArray) else False, "P")
+            shp = list(fb.shape)
+            if kind == "usern":
+                return NDArray(shp + [ncomp], lambda ix: RF(to_z3(fb.data0), *[to_z3(i) for i in ix]))
+            return NDArray(shp, lambda ix: RF(to_z3(fb.data0), *[to_z3(i) for i in ix], z3.IntVal(0)))
+        recipe._pyvc_builtin = True
+
+        def alldata(j):
+            fb = disk.fab(j)
+            return NDArray(list(fb.shape) + [nk + ncomp],
+                           lambda ix: zite(to_z3(ix[-1]) < nk, fb.value(ix[:-1], K(to_z3(ix[-1]))),
+                                           RF(to_z3(fb.data0), *[to_z3(i) for i in ix[:-1]], col(to_z3(ix[-1]) - nk))))
+
+        def facts(j):
+            j = to_z3(j)
+            fb = disk.fab(j)
+            return z3.And(disk.facts(j), z3.Implies(z3.And(j >= 0, j < disk.m),
+                          OUT(j + 1) == OUT(j) + hdrlen(fb.lo, fb.hi, nk + ncomp) + 8 * size_of(ctx, list(fb.shape) + [nk + ncomp])))
+
+        def rec(j):
+            fb = disk.fab(j)
+            return [("hdr", (tuple(fb.lo), tuple(fb.hi), nk + ncomp), None), ("ser", alldata(j), "F")]
+
+        def red(which):
+            def row(j):
+                ad = alldata(j)
+                fb = disk.fab(j)
+                cache = {}
+
+                def el(ix):
+                    key = str(ix[0])
+                    if key not in cache:
+                        cache[key] = reduce_const(ex, which, list(fb.shape), lambda r, c=ix[0]: ad.elem(tuple(r) + (c,)))
+                    return cache[key]
+                return NDArray([nk + ncomp], el)
+            return row
+
+        def wtemplate(k):
+            wf = WFile(pw, Fw)
+            wf.nrec, wf.rec, wf.recstart, wf.rec_size = k, rec, (lambda j: OUT(to_z3(j))), 2
+            wf.pos = OUT(to_z3(k))
+            return wf
+
+        def template(ex_, fr, k, entry):
+            k3 = to_z3(k)
+            cur["k"] = k3
+            br = RFile(disk.path, disk.F)
+            br.pos = disk.P(k3)
+            return {"offsets": SymSeq(k, lambda j: OUT(to_z3(j))), "mins": SymSeq(k, red("min")), "maxs": SymSeq(k, red("max")),
+                    "bfr": br, "bfw": wtemplate(k),
+                    "__assume__": [z3.And(k3 >= 0, k3 <= disk.m), facts(k3)], "__assert__": [("in-range", k3 <= disk.m)]}
+        self.loopspecs = {(self.qual, 0): LoopSpec(template)}
+        args = {"recipe": recipe if kind.startswith("user") else "some_thermo_attribute", "bfpath": disk.path, "newbfpath": pw,
+                "field_indexes": fields, "ids_keep": keep,
+                "sp_indexes": sel if kind == "byspecies" else [], "rx_indexes": sel if kind == "byreaction" else [],
+                "sp_start": s0, "sp_end": s1, "id_temp": it, "idx_O2": io2}
+        return {"args": [args], "m": disk.m, "OUT": OUT, "wtemplate": wtemplate, "Fw": Fw, "red": red, "calls": calls,
+                "nk": nk, "ncomp": ncomp}
+
+    def post(self, ex, inp, out):
+        ctx = ex.ctx
+        ctx.oblige("raises-nothing", out.kind == "ret", "P", note=str(out.exc) if out.kind != "ret" else "")
+        if out.kind != "ret":
+            return
+        m, OUT = inp["m"], inp["OUT"]
+        v = out.value
+        ok = isinstance(v, tuple) and len(v) == 3
+        ctx.oblige("post.returns-triple", ok, "P")
+        if not ok:
+            return
+        ctx.oblige("post.offsets", veq(ctx, v[0], SymSeq(m, lambda j: OUT(to_z3(j)))), "P")
+        for which, val in (("min", v[1]), ("max", v[2])):
+            row = inp["red"](which)
+            if self.kind == "byspecies":
+                # (this worker hands its rows back inside one more pair of brackets; Chef.cook indexes it away)
+                exp = NDArray([1, m, inp["nk"] + inp["ncomp"]], lambda ix: row(ix[1]).elem((ix[2],)))
+            else:
+                exp = NDArray([m, inp["nk"] + inp["ncomp"]], lambda ix: row(ix[0]).elem((ix[1],)))
+            okv = isinstance(val, NDArray) and val.ndim == exp.ndim
+            ctx.oblige(f"post.{which}s-are-extrema-of-the-written-array", veq(ctx, val, exp) if okv else False, "P")
+        wfs = ctx.ghost.get("wfiles", [])
+        ctx.oblige("frame.writes-only-output", len(wfs) == 1 and wfs[0].F is inp["Fw"], "P")
+        if len(wfs) == 1:
+            exp = inp["wtemplate"](m)
+            exp.closed = True
+            ctx.oblige("post.output-file-content", veq(ctx, wfs[0], exp), "P")
+        if self.kind.startswith("user"):
+            ctx.oblige("post.recipe-gets-field-indexes", all(c[1] for c in inp["calls"] if c[0] == "user"), "P")
+
+
 def chef_tasks(prop, tier="quick"):
-    out = [UserPfileKnife(False), UserPfileKnife(True)] + init_tasks(tier) + cook_tasks(tier)
+    out = [UserPfileKnife(False), UserPfileKnife(True)] + [CanteraKnife(k) for k in ("single", "byspecies", "byreaction", "user1", "usern")] + \
+        init_tasks(tier) + cook_tasks(tier)
     for t in out:
         t.prop = prop
     return out
@@ -149,7 +351,16 @@ def chef_canaries():
     return [("user knife: minima taken on the new data only",
              [(f, "                min_values = np.min(alldata, axis=(0, 1, 2))\n                max_values = np.max(alldata, axis=(0, 1, 2))\n                mins.append(min_values)\n                maxs.append(max_values)\n                bfw.write(alldata.flatten(order=\"F\").tobytes())\n\n    return offsets, np.array(mins), np.array(maxs)\n\nclass Chef",
                "                min_values = np.min(newdata, axis=(0, 1, 2))\n                max_values = np.max(alldata, axis=(0, 1, 2))\n                mins.append(min_values)\n                maxs.append(max_values)\n                bfw.write(alldata.flatten(order=\"F\").tobytes())\n\n    return offsets, np.array(mins), np.array(maxs)\n\nclass Chef")],
-             ["chefs_knife_user_pfile[n components]"])] + init_canaries() + cook_canaries()
+             ["chefs_knife_user_pfile[n components]"]),
+            ("thermo knives: the state is cleaned in the box array itself (no copy)",
+             [(f, "T = arr[:, :, :, args['id_temp']].copy()", "T = arr[:, :, :, args['id_temp']]")],
+             ["chefs_knife_single_field"]),
+            ("by-species knife: columns picked with the kept-field indices",
+             [(f, "newdata = newdata[:, :, :, args['sp_indexes']]", "newdata = newdata[:, :, :, args['ids_keep']]")],
+             ["chefs_knife_byspecies_field"]),
+            ("thermo knives: empty mass fractions are not repaired",
+             [(f, "Y[np.isclose(np.sum(Y, axis=3), 0), args['idx_O2']] = 1.0", "Y[np.isclose(np.sum(Y, axis=3), 1), args['idx_O2']] = 1.0")],
+             ["chefs_knife_single_field"])] + init_canaries() + cook_canaries()
 
 
 # ---------------------------------------------------------------------------------------------------------------------
